@@ -775,18 +775,33 @@ def corpus_job(job, res, C, sets, viol, nontrivial):
                 nontrivial(shash((base, how, note)))
             return o
 
+        def hashable(a, b, how):
+            """HashableModule is a thin wrapper: == must be the structural relation (which the pairs above compare with
+            the oracle) and equal wrappers must hash equally."""
+            ha, hb = HashableModule(a), HashableModule(b)
+            eq, real = ha == hb, a.is_structurally_equivalent(b)
+            bump("hashable_module_checks")
+            if eq != real or (hb == ha) != real:
+                viol(Violation("HashableModule.__eq__:differs-from-structural-equivalence",
+                               f"{rel}#{idx} {how}: HashableModule == is {eq}, is_structurally_equivalent is {real}"),
+                     dict(wit0, a_text=text[:3000]))
+            elif eq and hash(ha) != hash(hb):
+                viol(Violation("HashableModule.__hash__:equal-wrappers-different-hash", f"{rel}#{idx} {how}"),
+                     dict(wit0, a_text=text[:3000]))
+            elif len({ha, hb}) != (1 if eq else 2):
+                viol(Violation("HashableModule:set-membership-inconsistent", f"{rel}#{idx} {how}"), dict(wit0, a_text=text[:3000]))
+
         pair(m, m, "corpus-identity", True)
         pair(m, m.clone(), "corpus-clone", True)
-        o = pair(m, m2, "corpus-reparse", True)
-        # HashableModule agrees with the oracle
-        if o:
-            h1, h2 = HashableModule(m), HashableModule(m2)
-            if not (h1 == h2) or hash(h1) != hash(h2):
-                viol(Violation("HashableModule:eq-hash-inconsistent", f"{rel}#{idx}: re-parsed module not equal / hash differs"),
-                     dict(wit0, a_text=text[:3000]))
-            bump("hashable_module_checks")
+        # no expectation here: dialect resource handles are renamed on a second parse (process-global resource
+        # state, a C04/C06 matter), so two parses of one text are not always canonically equal
+        o = pair(m, m2, "corpus-reparse")
+        if o is False:
+            bump("reparse_not_canonically_equal")
+        hashable(m, m2, "reparse")
         if prev is not None:
             pair(m, prev, "corpus-neighbour")
+            hashable(m, prev, "neighbour")
         prev = m2
         # nested: first-level ops attached in the module
         tops = list(m.body.block.ops) if m.body.blocks else []
@@ -809,6 +824,7 @@ def corpus_job(job, res, C, sets, viol, nontrivial):
                 bump("text_mutants_unparseable")
                 continue
             o = pair(m, mm, "corpus-text-mutant", None, tm[1], tm[0])
+            hashable(m, mm, "text-mutant " + tm[1])
             if o is not None:
                 bump("text_mutants_isomorphic" if o else "text_mutants_different")
         if not res["samples"]:
@@ -816,7 +832,16 @@ def corpus_job(job, res, C, sets, viol, nontrivial):
 
 
 # ------------------------------------------------------------------------------------------------ schedule_space
+class CaseTimeout(BaseException):
+    pass
+
+
+def _alarm_handler(signum, frame):
+    raise CaseTimeout()
+
+
 def sched_job(job, res, C, sets, viol, nontrivial):
+    import signal
     from xdsl.passes import ModulePass
     from xdsl.transforms import get_all_passes
     from xv import corpus, genir
@@ -890,13 +915,21 @@ def sched_job(job, res, C, sets, viol, nontrivial):
                     raise
                 _cap["done"] = True
             cls.apply = apply_spy
+            signal.signal(signal.SIGALRM, _alarm_handler)
+            signal.alarm(30)
             try:
                 got_space = cls.schedule_space(ctx, module)
+            except CaseTimeout:
+                # a pass that does not terminate on this input: not this property; the shard must survive
+                bump("schedule_space_timed_out")
+                bump("schedule_space_timed_out:" + pname)
+                continue
             except Exception as e:  # noqa: BLE001
                 viol(Violation(f"crash:{type(e).__name__}:schedule_space", f"{pname}: schedule_space raised {type(e).__name__}: {e}"),
                      {"pass": pname, "module": wtext})
                 continue
             finally:
+                signal.alarm(0)
                 cls.apply = orig
             res["evaluations"] += 1
             bump("schedule_space_calls")
@@ -946,16 +979,16 @@ def sched_job(job, res, C, sets, viol, nontrivial):
 def plan(tier, seed):
     jobs = []
     if tier == "quick":
-        ng, per, noi, oper, nc, cper, ns, sper = 16, 60, 6, 120, 8, 40, 8, 30
+        ng, per, noi, oper, nc, cper, ns, sper = 16, 45, 6, 120, 8, 40, 8, 30
     else:
-        ng, per, noi, oper, nc, cper, ns, sper = 48, 700, 16, 1500, 16, 100, 16, 80
+        ng, per, noi, oper, nc, cper, ns, sper = 48, 300, 16, 1500, 16, 100, 16, 80
     for i in range(ng):
         jobs.append({"kind": "gen", "seed": seed * 100003 + i, "n": per})
     for i in range(noi):
         jobs.append({"kind": "oi", "seed": seed * 100003 + 5000 + i, "n": oper})
     for i in range(nc):
         jobs.append({"kind": "corpus", "seed": seed * 100003 + 6000 + i, "n": cper, "shard": i, "nshards": nc,
-                     "text_mutants": 4 if tier == "quick" else 12})
+                     "text_mutants": 6 if tier == "quick" else 12})
     for i in range(ns):
         jobs.append({"kind": "sched", "seed": seed * 100003 + 7000 + i, "n": sper, "shard": i, "nshards": ns,
                      "passes_per_module": 5 if tier == "quick" else 10})
@@ -1005,7 +1038,7 @@ def finish(agg, tier):
     inc = []
     need = {"pairs_oracle_equal": 2000, "pairs_oracle_different": 2000, "oracle_selfchecks": 4000, "pairs:identity": 500,
             "pairs:clone": 300, "pairs:rebuild": 500, "pairs:nested-identity": 500, "pairs:corpus-reparse": 150,
-            "pairs:corpus-text-mutant": 300, "operationinfo_pairs": 1500, "schedule_space_calls": 400,
+            "pairs:corpus-text-mutant": 200, "operationinfo_pairs": 1500, "schedule_space_calls": 400,
             "specs_with_fwd_value_refs": 200, "specs_with_outside_refs": 200}
     for k, n in need.items():
         if c.get(k, 0) < n:
